@@ -48,7 +48,10 @@ func checkC04(run *Run, res *Result) {
 		}
 		return st[k]
 	}
-	assigned := map[int]map[int]bool{} // member -> vbs requested in the current session
+	cfg := &run.Cfg
+	lastInfo := map[int][2]int{}       // member -> last published membership
+	loaded := map[int]bool{}           // member -> the session's offsets have been loaded (first stream request seen)
+	assigned := map[int]map[int]bool{} // member -> vBuckets of the range the current session was opened on
 	open := map[int]bool{}             // member -> between AfterStreamStart and BeforeStreamStop
 	outOfRangeAcked := map[vbKey]int{} // ack on a vb outside the current range (event number)
 	for i := range run.Evs {
@@ -59,23 +62,45 @@ func checkC04(run *Run, res *Result) {
 			switch e.S {
 			case "BeforeStreamStart":
 				assigned[e.M] = map[int]bool{}
+				n, t := cfg.MemberNumber, cfg.TotalMembers
+				if li, ok := lastInfo[e.M]; ok {
+					n, t = li[0], li[1]
+				}
+				if t >= 1 && n >= 1 && n <= t {
+					lo, hi := partition(cfg.NVb, t, n)
+					for vb := lo; vb <= hi; vb++ {
+						assigned[e.M][vb] = true
+					}
+				}
 				for kk := range st {
 					if kk.m == e.M {
 						delete(st, kk)
 					}
 				}
-				open[e.M] = true
+				loaded[e.M] = false
 			case "BeforeStreamStop":
 				open[e.M] = false
+			}
+		case journal.KPublish:
+			lastInfo[e.M] = [2]int{int(e.I), int(e.U)}
+		case journal.KReq:
+			if e.S != "CMD_DCPSTREAMREQ" {
+				continue
+			}
+			if !loaded[e.M] {
+				// the session's offsets are in place from here on (Load precedes the first stream request)
+				loaded[e.M], open[e.M] = true, true
+			}
+			if e.Off != nil && e.U&0x80 != 0 {
+				if v := get(k); !v.havePos {
+					v.pos, v.havePos = e.Off.Seq, true // the resume position the session loaded
+					v.history[v.pos] = true
+				}
 			}
 		case journal.KSReq:
 			if e.S2 != "ok" || e.Off == nil {
 				continue
 			}
-			if assigned[e.M] == nil {
-				assigned[e.M] = map[int]bool{}
-			}
-			assigned[e.M][e.Vb] = true
 			v := get(k)
 			v.sid = e.ID
 			v.absorb = nil
@@ -134,8 +159,8 @@ func checkC04(run *Run, res *Result) {
 					"member %d: an acknowledgement for vb %d outside the assigned range (event #%d) moved the tracked position to %d", e.M, e.Vb, n, e.Off.Seq)
 				continue
 			}
-			if !open[e.M] && !assigned[e.M][e.Vb] {
-				continue
+			if !open[e.M] {
+				continue // closed window (rebalance delay, shutdown): the assigned range is undefined there
 			}
 			v := get(k)
 			seq := e.Off.Seq
@@ -171,7 +196,7 @@ func checkC04(run *Run, res *Result) {
 			}
 			v.lastTrack, v.tracked = seq, true
 		case journal.KAPI:
-			if !strings.HasPrefix(e.S, "GET /states/offset") || e.I != 200 || !strings.HasPrefix(e.S2, "{") {
+			if !strings.HasPrefix(e.S, "GET /states/offset") || e.I != 200 || !strings.HasPrefix(e.S2, "{") || !open[e.M] {
 				continue
 			}
 			var body map[string]struct{ SeqNo uint64 }
@@ -191,6 +216,9 @@ func checkC04(run *Run, res *Result) {
 				}
 			}
 		case journal.KScrape:
+			if !open[e.M] {
+				continue
+			}
 			for name, val := range e.F {
 				if !strings.HasPrefix(name, "cbgo_seq_no_current{vbId=") {
 					continue
@@ -216,7 +244,7 @@ func checkC04(run *Run, res *Result) {
 				continue
 			}
 			v := st[k]
-			if v == nil || !v.havePos {
+			if v == nil || !v.havePos || !open[e.M] {
 				continue
 			}
 			if e.Off.Seq > v.pos || !v.history[e.Off.Seq] {
